@@ -12,7 +12,8 @@ import numpy
 import pandas
 
 INDEX_KINDS = ["default", "string", "nonunique", "unsorted"]
-ENTRY_POINTS = ["model_matrix", "Formula.get_model_matrix", "ModelSpec.get_model_matrix", "materializer.get_model_matrix"]
+ENTRY_POINTS = ["model_matrix", "Formula.get_model_matrix", "ModelSpec.get_model_matrix", "materializer.get_model_matrix", "materializer.get_model_matrix#2"]
+# "#2": the second build of ONE materializer object (the first one, of the same formula, is thrown away)
 
 
 def make_index(kind: str, n: int):
@@ -103,8 +104,13 @@ def build(entry: str, formula: str, data, ctx, drop_rows, na_action: str, output
             return spec.get_model_matrix(data, context=ctx, output=output, **kw)
         spec = ModelSpec.from_spec(Formula(formula), na_action=na_action, output=output)
         return spec.get_model_matrix(data, context=ctx, **kw)
-    if entry == "materializer.get_model_matrix":
+    if entry.startswith("materializer.get_model_matrix"):
         m = (FormulaMaterializer.for_materializer(materializer) if materializer else FormulaMaterializer.for_data(data))(data, context=ctx)
+        if entry.endswith("#2"):
+            try:
+                m.get_model_matrix(formula, na_action="drop", output=output)
+            except Exception:
+                pass
         return m.get_model_matrix(formula, na_action=na_action, output=output, **kw)
     raise ValueError(entry)
 
